@@ -110,7 +110,6 @@ theorem mainIter_inv (m : Option Msg) (s : State) (h : Inv s) (hf : s.fsm = .est
   unfold mainIter
   split
   · exact inv_of_ended (onNotify_ended _ _ _ hup)
-  · exact inv_of_ended (onNotify_ended _ _ _ hup)
   · exact inv_of_ended (onNotification_ended _ hup)
   · exact dflt
 
